@@ -5,8 +5,7 @@ Model: SophiaModel/Model/{Matcher,Store}.lean; index-selection tables regenerate
 inmem/src/{dataset,graph}.rs on every run (SophiaModel/Gen/IndexTable.lean).
 Lemmas: SophiaProofs/Lemmas/{StoreDefs,StoreMut,StoreScan,StoreQuery}.lean.
 -/
-import SophiaProofs.Lemmas.StoreMut
-import SophiaProofs.Lemmas.StoreScan
+import SophiaProofs.Lemmas.StoreBulk
 
 namespace SophiaProofs.C01
 open SophiaModel SophiaModel.Term SophiaModel.Store SophiaProofs.StoreP
@@ -97,6 +96,98 @@ theorem range_is_prefix_filter (pre : List Nat) (k max : Nat) (ix : List Row)
     range (pre ++ List.replicate k 0) (pre ++ List.replicate k max) ix =
       ix.filter (fun r => r.take pre.length == pre) :=
   range_prefix pre k max ix hrows
+
+/-! ### queries -/
+
+/-- **Every pattern query returns exactly the matching members, each once** — for every arm of
+every generated index-selection table (`descOK`, re-decided on every run), every store state
+satisfying the invariant, every mix of matchers on s / p / o / g. -/
+theorem scan_eq_filter {d : StoreDesc} {s : St} (hd : descOK d = true) (hs : s.shape = d.shape)
+    (h : Inv s) (p : Pat) (hp : p.ms.length = d.n) :
+    SameSet (quadsMatching d.arms s p) ((abs s).filter (quadMatched d.n p)) ∧
+    NodupQ (quadsMatching d.arms s p) :=
+  quadsMatching_spec hd hs h p hp
+
+/-- `contains` (the default method: `quads_matching([s],[p],[o],[g])` non-empty) is set membership -/
+theorem contains_is_membership {d : StoreDesc} {s : St} (hd : descOK d = true) (hs : s.shape = d.shape)
+    (h : Inv s) (q : Quad) (hg : d.n = 3 → q.g = none) :
+    contains d.arms s q = qmem q (abs s) :=
+  contains_spec hd hs h q hg
+
+/-- matchers cannot tell `Term::eq`-equal terms apart, so "the matching members" is well defined -/
+theorem matching_respects_term_eq (n : Nat) (p : Pat) (a b : Quad) (h : quadEq a b = true) :
+    quadMatched n p a = quadMatched n p b :=
+  quadMatched_resp n p a b h
+
+/-! ### bulk and pattern-selected mutations: counts state how often the set really changed -/
+
+theorem insert_all_refines {d : StoreDesc} {qs : List Quad} {s s' : St} {c c' : Nat} (hG : Good d s)
+    (hq : ∀ q ∈ qs, QOK d q) (h : insertAll s qs c = (s', some c')) :
+    SameSet (abs s') (qs.reverse ++ abs s) ∧ c' = c + (specInsertAll (abs s) qs 0).2 :=
+  ⟨(insertAll_spec hG hq h).1, insertAll_count hG hq h⟩
+
+/-- index-full in the middle of a bulk insertion: exactly the quads before the failing one were added -/
+theorem insert_all_full_prefix {d : StoreDesc} {qs : List Quad} {s s' : St} {c : Nat} (hG : Good d s)
+    (hq : ∀ q ∈ qs, QOK d q) (h : insertAll s qs c = (s', none)) :
+    ∃ k, k < qs.length ∧ SameSet (abs s') ((qs.take k).reverse ++ abs s) :=
+  insertAll_full hG hq h
+
+theorem remove_all_refines {d : StoreDesc} (qs : List Quad) {s : St} (c : Nat) (hG : Good d s)
+    (hq : ∀ q ∈ qs, QOK d q) :
+    SameSet (abs (removeAll s qs c).1) ((abs s).filter (fun x => !qmem x qs)) :=
+  (removeAll_spec qs c hG hq).1
+
+/-- `remove_matching` (collect the matches, then `remove_all`) removes exactly the matching quads
+and returns their number -/
+theorem remove_matching_refines {d : StoreDesc} {s s' : St} {p : Pat} {c : Nat} (hG : Good d s)
+    (hp : p.ms.length = d.n) (h : removeMatching d.arms s p = (s', c)) :
+    SameSet (abs s') ((abs s).filter (fun q => !quadMatched d.n p q)) ∧
+    c = ((abs s).filter (quadMatched d.n p)).length :=
+  removeMatching_spec hG hp h
+
+theorem retain_matching_refines {d : StoreDesc} {s : St} (p : Pat) (hG : Good d s) :
+    SameSet (abs (retainMatching s p)) ((abs s).filter (quadMatched d.n p)) :=
+  retainMatching_spec p hG
+
+/-! ### every finite history -/
+
+/-- **After any finite operation history** (insert / remove / insert_all / remove_all /
+remove_matching / retain_matching, in any order, on any of the generated store types, with any
+index width `max`, *including histories that exhaust the term index*) the store is in a good
+state, holds exactly — modulo `Term::eq`, each quad once — the quads of the plain-set
+specification `stepSF` (which knows nothing about indexes, rows or arm tables; it only tracks
+which terms have been seen so far, because that alone decides when `TermIndexFullError` occurs),
+and has interned exactly those terms. -/
+theorem run_refines_spec (d : StoreDesc) (hd : descOK d = true) (max : Nat) (ops : List Op)
+    (hq : ∀ op ∈ ops, OpOK d op) :
+    let s := ops.foldl (stepM d) (St.new d.shape max)
+    let σ := ops.foldl (stepSF max d.n) ⟨[], []⟩
+    Good d s ∧ SameSet (abs s) σ.quads ∧ NodupQ (abs s) ∧ s.terms = σ.seen :=
+  run_refines_full d hd max ops hq
+
+/-- observables after any history: membership and pattern queries answer as the specification -/
+theorem run_contains_spec (d : StoreDesc) (hd : descOK d = true) (max : Nat) (ops : List Op)
+    (hq : ∀ op ∈ ops, OpOK d op) (q : Quad) (hqq : QOK d q) :
+    contains d.arms (ops.foldl (stepM d) (St.new d.shape max)) q =
+      qmem q (ops.foldl (stepSF max d.n) ⟨[], []⟩).quads :=
+  run_contains_full d hd max ops hq q hqq
+
+theorem run_query_spec (d : StoreDesc) (hd : descOK d = true) (max : Nat) (ops : List Op)
+    (hq : ∀ op ∈ ops, OpOK d op) (p : Pat) (hp : p.ms.length = d.n) :
+    SameSet (quadsMatching d.arms (ops.foldl (stepM d) (St.new d.shape max)) p)
+      (Spec.matching d.n (ops.foldl (stepSF max d.n) ⟨[], []⟩).quads p) ∧
+    NodupQ (quadsMatching d.arms (ops.foldl (stepM d) (St.new d.shape max)) p) :=
+  run_quadsMatching_full d hd max ops hq p hp
+
+/-- when the index cannot fill up (at most `max / 4` quads ever inserted) the specification is the
+plain list of quads with `Spec.insert` / `Spec.remove` and nothing else: all shipped
+implementations (Light/Fast, 16/32-bit, graph/dataset) refine the SAME specification -/
+theorem run_refines_plain_set (d : StoreDesc) (hd : descOK d = true) (max : Nat) (ops : List Op)
+    (hq : ∀ op ∈ ops, OpOK d op) (hsz : 4 * histSize ops ≤ max) :
+    let s := ops.foldl (stepM d) (St.new d.shape max)
+    let t := ops.foldl (stepS d.n) []
+    Good d s ∧ SameSet (abs s) t ∧ NodupQ (abs s) :=
+  run_refines_small d hd max ops hq hsz
 
 -- non-vacuity of the refinement theorems: a fresh 16-bit Fast dataset meets the hypotheses and an
 -- insertion into it succeeds with flag `true`
